@@ -211,6 +211,23 @@ CHECKS = {
         "Subscriptions, async resolvers, relay helpers and id_types are outside (event loop / not built).",
         design="4/C19",
     ),
+    "C20": dict(
+        text="Sequential interference harness (rely/guarantee style) over the mechanisms the property is anchored in: one "
+        "real first use (T1) of each type of a program family (plain, self-recursive, mutually recursive, 3-cycle, generic "
+        "recursive, recursive through conversions) runs with the shared recursion cache wrapped; at a forked access point "
+        "(contains / get / getitem / setitem, index 0..13) the environment acts: another thread T2 performs, atomically, a "
+        "complete real first use of a forked type of the program; likewise, while T1 is inside the lazy initialisation of a "
+        "RecMethod, T2 calls the same compiled method on symbolic data. Assertion: the interfered first use, T2's own call "
+        "and a follow-up use of every type return what the sequential baseline returns and raise nothing it does not "
+        "raise. Every counterexample is replayed as a true two-thread run through the public API (T1 parked inside the "
+        "wrapper while T2 runs).",
+        note="CrossHair cannot run threads: the schedule dimension is enumerated by forks over (access index, interfering "
+        "type), one event in quick and two in thorough; T2 is atomic between two cache accesses of T1. Outside: "
+        "pre-emption inside T2, free-threaded builds, atomicity of single dict / lru_cache operations (trusted, GIL).",
+        design="4/C20",
+        technique="bounded exhaustive enumeration of interference points driven by the CrossHair fork tree over the real "
+        "code, symbolic data for the lazy-initialisation variant; true two-thread replay",
+    ),
 }
 
 NOT_YET = "check not built yet at this commit (work in progress, see DESIGN.md section 4)"
